@@ -28,8 +28,9 @@ LEVEL_NOTE = ("Trusted: Coq kernel, extraction, the renderer structure->source t
               "text are not compared (the property asks for names, order, kinds, required-ness). Class bodies bind each name at most once (plus the "
               "annotated-name-then-property form); undecorated classes contain no field() calls; field(default=..., default_factory=...) together "
               "is not generated. Expression resolution of `dataclass`/`field`/`KW_ONLY`/`InitVar` spellings, module layout, wildcard expansion order and extension state across loads are exercised by the generator (layout and history streams), not modelled in Coq; finding C18-F10 (star import re-binding `dataclass`) lives there and is classified by a layout predicate in the harness, not by the model.")
-MODEL = ("Model.C18_dataclass", "run_C18")
-COQ_TARGETS = ["Proofs/C18_dataclass.vo"]
+MODEL = ("Model.C18_run", "run_C18")
+MODEL_TARGETS = ["Model/C18_run.vo"]
+COQ_TARGETS = ["Proofs/C18_dataclass.vo", "Proofs/C18_session.vo"]
 RULE = ("systematic: every (parent decorator, child decorator) pair over {undecorated} + {init in (absent,True,False)} x {kw_only in (absent,True,False)} "
         "x fixed body pairs; every single field form (5 annotation kinds x value none/plain/each field(...) argument combination) under each kw-only "
         "context; seeded random diamonds A;B(A);C(A);D(B,C)|D(C,B) over three names; seeded random hierarchies of 1-4 classes (thorough: up to 5), depth <=3-4, 0-2 bases, bodies of 0-5 statements over a pool of 6 "
@@ -125,11 +126,11 @@ def render_class(i, c, ind="    "):
     init_off = None
     if c["hw"] is not None:
         init_off = len(lines) + len(body)
-        body.append("def __init__(self, q0):")
+        body.append(f"def __init__(self, q{i}):")       # one distinguishable signature per class (presented-constructor checks)
         if c["hw"]:
             for n in c["hw"]:
                 body.append(f"    self.{fname(n)}: int = 0")
-            body.append("    self.plain_instance_attribute = q0")
+            body.append(f"    self.plain_instance_attribute = q{i}")
         else:
             body.append("    pass")
     if not body:
@@ -279,8 +280,19 @@ def cpython_mros(table):
     return [[idx[k] for k in ns[f"K{i}"].__mro__[1:-1]] for i in range(len(table))]
 
 
+def pname(s):
+    """f<n> -> n (field names); q<j> -> 100 + j (parameter of class j's hand-written __init__, the model's hw_name)."""
+    if len(s) > 1 and s[1:].isdigit():
+        if s[0] == "f":
+            return int(s[1:])
+        if s[0] == "q":
+            return 100 + int(s[1:])
+    return s
+
+
 def cpython_view(src, n):
-    """Execute the source. Returns None when CPython raises, else per class [init_member, is_dataclass]."""
+    """Execute the source. Returns None when CPython raises, else per class [init_member, is_dataclass, presented]:
+    presented = [provider class index or None, parameters of inspect.signature(cls)] (the constructor CPython resolves along __mro__)."""
     import types
     mod = types.ModuleType("c18mod")        # dataclasses looks string annotations up in sys.modules[cls.__module__]
     ns = mod.__dict__
@@ -292,6 +304,7 @@ def cpython_view(src, n):
     finally:
         sys.modules.pop("c18mod", None)
     out = []
+    idx = {ns[f"K{i}"]: i for i in range(n)}
     for i in range(n):
         k = ns[f"K{i}"]
         f = k.__dict__.get("__init__")
@@ -302,19 +315,96 @@ def cpython_view(src, n):
         else:
             ps = []
             for p in list(inspect.signature(f).parameters.values())[1:]:
-                ps.append([int(p.name[1:]) if p.name[1:].isdigit() else p.name, IK.get(p.kind, str(p.kind)), p.default is not inspect.Parameter.empty])
+                ps.append([pname(p.name), IK.get(p.kind, str(p.kind)), p.default is not inspect.Parameter.empty])
             mem = ["synth", ps]
-        out.append([mem, dataclasses.is_dataclass(k)])
+        provider = next((idx[b] for b in k.__mro__ if b in idx and "__init__" in b.__dict__), None)
+        pres = [[pname(p.name), IK.get(p.kind, str(p.kind)), p.default is not inspect.Parameter.empty]
+                for p in inspect.signature(k).parameters.values()]
+        out.append([mem, dataclasses.is_dataclass(k), [provider, pres]])
     return out, None
 
 
 _counter = itertools.count()
 
 
+def render_xpkg(table, where, name):
+    """Cross-package layout: where[i] in 'a','b','c' names the package <name><letter> whose module `m` defines class i; a class may
+    only derive from classes of its own or an EARLIER package (a <- b <- c), which real Python could import in that order.
+    Each package gets its own import style for the bases it takes from earlier packages (by package letter):
+      a/b/c -> from <pkg>.m import K   |  `from <pkg> import K` through an explicit re-export in <pkg>/__init__.py  |
+      `from <pkg>.m import *` placed before the stdlib imports (so that the helper names are re-bound by the stdlib line).
+    Returns ({package: {module: source}} in dependency order, {class index: line of hand-written def __init__}, locate)."""
+    out, hw_line = {}, {}
+    for letter in sorted(set(where)):
+        pkg = name + letter
+        lines = header(table)
+        mine = [i for i in range(len(table)) if where[i] == letter]
+        need = sorted({b for i in mine for b in table[i]["bases"] if where[b] != letter})
+        style = (table[mine[0]].get("style", 0) + len(need)) % 3
+        stars = []
+        for b in need:
+            src_pkg = name + where[b]
+            if style == 0:
+                lines.append(f"from {src_pkg}.m import K{b}")
+            elif style == 1:
+                lines.append(f"from {src_pkg} import K{b}")
+            elif src_pkg not in stars:
+                stars.append(src_pkg)
+        for k, sp in enumerate(stars):
+            lines.insert((1 if lines[0].startswith("from __future__") else 0) + k, f"from {sp}.m import *")
+        for i in mine:
+            lines.append("")
+            cl, off = render_class(i, table[i])
+            if off is not None:
+                hw_line[i] = len(lines) + off + 1
+            lines.extend(cl)
+        out[pkg] = {"m": "\n".join(lines) + "\n",
+                    "__init__": f"from {pkg}.m import " + ", ".join(f"K{i}" for i in mine) + "\n"}
+    return out, hw_line, (lambda i: f"{name}{where[i]}.m.K{i}")
+
+
+def read_class(cls, i, hw_line):
+    """What Griffe presents for one class: [__init__ member, 'dataclass' label, mro, presented constructor]."""
+    m = cls.members.get("__init__")
+    if m is None:
+        mem = ["absent"]
+    elif m.lineno:
+        mem = ["handwritten", [p.name for p in m.parameters], m.lineno == hw_line.get(i)]
+    else:
+        ps = []
+        params = list(m.parameters)
+        if not params or params[0].name != "self" or params[0].default is not None:
+            ps.append(["<no-self>", "PK", False])
+        for p in params[1:]:
+            kind = p.kind.value if p.kind is not None else "None"
+            ps.append([pname(p.name), GK.get(kind, kind), p.default is not None])
+        mem = ["synth", ps]
+    try:
+        mro = [int(b.name[1:]) for b in cls.mro()]
+    except ValueError:
+        mro = "ValueError"
+    # the constructor a consumer sees: Class.parameters (own __init__ member, else the first inherited one along the MRO)
+    try:
+        am = cls.all_members.get("__init__")
+        owner = None if am is None else (am.final_target.parent if am.is_alias else am.parent)
+        provider = None if owner is None else int(owner.name[1:])
+        params = list(cls.parameters)
+        if params and params[0].name == "self":
+            params = params[1:]
+        elif params:
+            params = ["<no-self>"] + params
+        pres = [provider, [p if isinstance(p, str) else [pname(p.name), GK.get(p.kind.value if p.kind is not None else "None", "?"), p.default is not None]
+                           for p in params]]
+    except Exception as e:  # noqa: BLE001
+        pres = ["raised", f"{type(e).__name__}: {e}"[:80]]
+    return [mem, "dataclass" in cls.labels, mro, pres]
+
+
 def griffe_view(ctx, table, hw_line_single, split, load=None):
-    """Write the source under ctx.scratch and load it with griffe.load.  Default: a fresh module name and default extensions
+    """Write the source under ctx.scratch and load it with Griffe.  Default: a fresh module name and default extensions
     (=> built-in dataclasses extension, as the loader adds it).  load = {"name", "dir", "extensions"} selects a fixed package
-    name in its own directory and a shared Extensions container (history stream: several versions through ONE container)."""
+    name in its own directory and a shared Extensions container (history stream: several versions through ONE container).
+    Cross-package layouts (imp == "xpkg"): ONE GriffeLoader loads the packages one after the other in dependency order."""
     import griffe
     k = next(_counter)
     where, imp = split_parts(split)
@@ -327,6 +417,18 @@ def griffe_view(ctx, table, hw_line_single, split, load=None):
         name = load["name"]
         kwargs = {"extensions": load["extensions"]}
     base.mkdir(parents=True, exist_ok=True)
+    if imp == "xpkg":
+        base = base / f"x{k}"
+        pkgs, hw_line, locate = render_xpkg(table, where, name)
+        for pkg, mods in pkgs.items():
+            (base / pkg).mkdir(parents=True)
+            for m, text in mods.items():
+                (base / pkg / f"{m}.py").write_text(text)
+        with Watchdog():
+            loader = griffe.GriffeLoader(search_paths=[str(base)], **kwargs)
+            for pkg in pkgs:
+                loader.load(pkg)
+        return [read_class(loader.modules_collection[locate(i)], i, hw_line) for i in range(len(table))]
     if where is None:
         src, hw_line = render(table)
         (base / f"{name}.py").write_text(src)
@@ -340,29 +442,7 @@ def griffe_view(ctx, table, hw_line_single, split, load=None):
         locate = lambda i: f"{where[i]}.K{i}"  # noqa: E731
     with Watchdog():
         pkg = griffe.load(name, search_paths=[str(base)], **kwargs)
-    out = []
-    for i in range(len(table)):
-        cls = pkg[locate(i)]
-        m = cls.members.get("__init__")
-        if m is None:
-            mem = ["absent"]
-        elif m.lineno:
-            mem = ["handwritten", [p.name for p in m.parameters], m.lineno == hw_line.get(i)]
-        else:
-            ps = []
-            params = list(m.parameters)
-            if not params or params[0].name != "self" or params[0].default is not None:
-                ps.append(["<no-self>", "PK", False])
-            for p in params[1:]:
-                kind = p.kind.value if p.kind is not None else "None"
-                ps.append([int(p.name[1:]) if p.name[1:].isdigit() else p.name, GK.get(kind, kind), p.default is not None])
-            mem = ["synth", ps]
-        try:
-            mro = [int(b.name[1:]) for b in cls.mro()]
-        except ValueError:
-            mro = "ValueError"
-        out.append([mem, "dataclass" in cls.labels, mro])
-    return out
+    return [read_class(pkg[locate(i)], i, hw_line) for i in range(len(table))]
 
 
 # ---------------------------------------------------------------- generation
@@ -394,7 +474,7 @@ def rand_value(rng, want_default, gap_ok=True):
     return ("field", init, kw, d, f, o)
 
 
-def rand_body(rng, state, decorated, quiet):
+def rand_body(rng, state, decorated, quiet, initvar=0.0):
     """state['dflt']: a default was already used in this hierarchy (keeps CPython's ordering rule satisfied most of the time)."""
     n = rng.choice([0, 1, 1, 2, 2, 3, 3, 4, 5])
     names = rng.sample(range(NAMES), min(n, NAMES))
@@ -402,6 +482,8 @@ def rand_body(rng, state, decorated, quiet):
     sentinel = False
     for nm in names:
         r = rng.random()
+        if initvar and rng.random() < initvar:
+            r = 0.6            # the InitVar branch below
         want_default = (rng.random() < (0.9 if state["dflt"] else state["p_default"]))
         if r < 0.58:
             a = "plain"
@@ -436,7 +518,7 @@ def rand_body(rng, state, decorated, quiet):
     return body
 
 
-def rand_table(rng, maxn=4, quiet=False):
+def rand_table(rng, maxn=4, quiet=False, initvar=0.0):
     """quiet=True avoids the forms behind known gaps so that more hierarchies exercise the gap-free theorem."""
     n = rng.choice([1, 2, 2, 3, 3, 3, 4, 4][: 2 * maxn]) if maxn <= 4 else rng.randint(1, maxn)
     state = {"dflt": False, "p_default": rng.choice([0.0, 0.3, 0.6, 1.0])}
@@ -461,7 +543,7 @@ def rand_table(rng, maxn=4, quiet=False):
         hw = None
         if rng.random() < 0.12:
             hw = [] if (quiet or rng.random() < 0.6) else [80 + i]
-        table.append({"dec": dec, "body": rand_body(rng, state, decorated, quiet), "hw": hw, "bases": bases, "style": rng.randrange(210)})
+        table.append({"dec": dec, "body": rand_body(rng, state, decorated, quiet, initvar), "hw": hw, "bases": bases, "style": rng.randrange(210)})
     return table
 
 
@@ -479,14 +561,18 @@ def rand_diamond(rng):
                 v = ("field", None, rng.choice([None, True]), d, False, True)
             out.append(("attr", nm, "plain" if r < 0.9 else "initvar", v))
         return out
-    dec = lambda: (None, rng.choice([None, None, True])) if rng.random() < 0.85 else None  # noqa: E731
-    d0, d1, d2 = dec(), dec(), dec()
+    dec = lambda: (None, rng.choice([None, None, True])) if rng.random() < 0.75 else None  # noqa: E731
+    hw = lambda: [] if rng.random() < 0.12 else None  # noqa: E731
+    # the join and the class below it: decorated, undecorated (inherits its constructor) or init=False (fields, no __init__)
+    leaf = lambda: rng.choice([(None, None), (None, None), (None, None), None, None, (False, None)])  # noqa: E731
+    d0, d1, d2, d3 = dec(), dec(), dec(), leaf()
     t = [{"dec": d0, "body": body(d0 is not None), "hw": None, "bases": [], "style": rng.randrange(210)},
-         {"dec": d1, "body": body(d1 is not None), "hw": None, "bases": [0], "style": rng.randrange(210)},
-         {"dec": d2, "body": body(d2 is not None), "hw": None, "bases": [0], "style": rng.randrange(210)},
-         {"dec": (None, None), "body": body() if rng.random() < 0.5 else [], "hw": None, "bases": rng.choice([[1, 2], [2, 1]]), "style": rng.randrange(210)}]
+         {"dec": d1, "body": body(d1 is not None), "hw": hw(), "bases": [0], "style": rng.randrange(210)},
+         {"dec": d2, "body": body(d2 is not None), "hw": hw(), "bases": [0], "style": rng.randrange(210)},
+         {"dec": d3, "body": body(d3 is not None) if rng.random() < 0.5 else [], "hw": None, "bases": rng.choice([[1, 2], [2, 1]]), "style": rng.randrange(210)}]
     if rng.random() < 0.3:
-        t.append({"dec": (None, None), "body": body(), "hw": None, "bases": [3], "style": rng.randrange(210)})
+        d4 = leaf()
+        t.append({"dec": d4, "body": body(d4 is not None), "hw": None, "bases": [3], "style": rng.randrange(210)})
     return t
 
 
@@ -566,6 +652,35 @@ def rand_split(rng, table):
     return {"where": [base_mod if i < cut else derived_mod for i in range(n)], "imp": rng.choice(IMPORT_STYLES)}
 
 
+def rand_xsplit(rng, table):
+    """cross-package layout: 2-3 packages a <- b <- c, classes assigned by index so that bases live in the same or an earlier package;
+    at least one base crosses a package boundary when the table has a base at all."""
+    n = len(table)
+    edges = [(i, b) for i, c in enumerate(table) for b in c["bases"]]
+    if edges:
+        i, b = rng.choice(edges)
+        c1 = rng.randint(b + 1, i)
+    else:
+        c1 = rng.randint(1, max(1, n - 1))
+    c2 = rng.randint(c1, n) if rng.random() < 0.5 else n
+    return {"where": ["a" if i < c1 else ("b" if i < c2 else "c") for i in range(n)], "imp": "xpkg"}
+
+
+def walk_events(rng, table, split):
+    """The on_package_loaded events of one load of this layout, as lists of class indices in a possible walk order: one event per
+    package (dependency order for cross-package layouts); inside a package the modules come in an arbitrary order (Griffe sorts
+    submodules by depth only, the rest is directory order), the classes of a module in definition order."""
+    where, imp = split_parts(split)
+    n = len(table)
+    if where is None:
+        return [list(range(n))]
+    if imp == "xpkg":
+        return [[i for i in range(n) if where[i] == letter] for letter in sorted(set(where))]
+    mods = sorted(set(where))
+    rng.shuffle(mods)
+    return [[i for m in mods for i in range(n) if where[i] == m]]
+
+
 def shadowed(table, split):
     """C18-F10 classifier (layout level, outside the Coq model): classes defined in a module whose star import of a sibling
     (placed after the stdlib imports, sibling without __all__) re-binds `dataclass`, `field`, `KW_ONLY`, `InitVar`, `dataclasses`."""
@@ -576,10 +691,22 @@ def shadowed(table, split):
     return {i for i in range(len(table)) if where[i] in mods}
 
 
-def check_tables(ctx, tables, stream, use_model=True, mirror=False, loads=None):
+def enc_session(classes, paths, events, drop_cache=False, keep_processed=False):
+    return ["session", classes, list(paths), [list(e) for e in events], bool(drop_cache), bool(keep_processed)]
+
+
+def dec_presented(x):
+    """model's (opt provider, params) -> [provider or None, params]"""
+    return [x[0][0] if x[0] else None, [list(p) for p in x[1]]]
+
+
+def check_tables(ctx, tables, stream, use_model=True, mirror=False, loads=None, layout=None):
     """loads (optional, parallel to tables): {"name", "dir", "extensions", "split", "prev"} — the table is one version of a
-    package loaded through a shared Extensions container after the versions listed in "prev" (history stream)."""
+    package loaded through a shared Extensions container after the versions listed in "prev" (history stream).
+    layout: None = random (one module 53 %, two-module package 35 %, cross-package 12 %), or "xpkg" to force cross-package.
+    Returns one record per input table (None when CPython rejects the bases)."""
     prepared = []
+    records = [None] * len(tables)
     for ti, table in enumerate(tables):
         load = loads[ti] if loads else None
         mros = cpython_mros(table)
@@ -590,11 +717,20 @@ def check_tables(ctx, tables, stream, use_model=True, mirror=False, loads=None):
         split = None
         if load is not None:
             split = load.get("split")
-        elif len(table) >= 2 and ctx.rng.random() < 0.35:
-            split = rand_split(ctx.rng, table)
-        prepared.append((table, mros, split, load))
-    mres = ctx.model([enc_table(t, m) for t, m, _, _ in prepared]) if use_model else [None] * len(prepared)
-    for (table, mros, split, load), mr in zip(prepared, mres):
+        elif len(table) >= 2:
+            r = ctx.rng.random()
+            if layout == "xpkg" or r >= 0.88:
+                split = rand_xsplit(ctx.rng, table)
+            elif r < 0.35:
+                split = rand_split(ctx.rng, table)
+        prepared.append((ti, table, mros, split, load, walk_events(ctx.rng, table, split)))
+    if use_model:
+        encs = [enc_table(t, m) for _, t, m, _, _, _ in prepared]
+        allres = ctx.model(encs + [enc_session(e[1], range(len(e[1])), ev) for e, (_, _, _, _, _, ev) in zip(encs, prepared)])
+        mres, sres = allres[:len(prepared)], allres[len(prepared):]
+    else:
+        mres = sres = [None] * len(prepared)
+    for (ti, table, mros, split, load, events), mr, sr in zip(prepared, mres, sres):
         src, hw_line = render(table)
         case = case_json(table, split)
         if load is not None:
@@ -607,7 +743,12 @@ def check_tables(ctx, tables, stream, use_model=True, mirror=False, loads=None):
         ctx.observe("depth", table_depth(table))
         if use_model:
             ctx.observe("single inheritance (model's linear)", bool(mr[1]))
-        ctx.observe("layout", "one-module" if not split else "two-modules, bases via " + split_parts(split)[1])
+        where, imp = split_parts(split)
+        ctx.observe("layout", "one-module" if not split else ("cross-package, one loader, %d packages" % len(set(where)) if imp == "xpkg" else "two-modules, bases via " + imp))
+        if imp == "xpkg":
+            ctx.observe("cross-package: a base from an earlier package has InitVar fields",
+                        any(where[b] != where[i] and any(s[0] == "attr" and s[2] == "initvar" for s in table[b]["body"])
+                            for i, c in enumerate(table) for b in mros[i]))
         ctx.observe("annotations", "from __future__ import annotations" if table[0].get("style", 0) % 11 == 4 else "evaluated")
         for c in table:
             ctx.observe("decorator", "undecorated" if c["dec"] is None else f"init={c['dec'][0]},kw_only={c['dec'][1]}")
@@ -639,36 +780,50 @@ def check_tables(ctx, tables, stream, use_model=True, mirror=False, loads=None):
                 ctx.tie_failure("oracle", "py_eval_table(model) accepts vs CPython executes the module",
                                 {"model_accepts": accepted, "cpython": why or "ok"}, case)
         f10 = shadowed(table, split)
+        tainted = {i for i in range(len(table)) if any(j in f10 for j in [i] + mros[i])}
+        records[ti] = {"table": table, "mros": mros, "split": split, "gv": gv, "cv": cv, "f10": f10, "events": events, "case": case}
         for i, c in enumerate(table):
-            g_mem, g_label, g_mro = gv[i]
+            g_mem, g_label, g_mro, g_pres = gv[i]
             if g_mro != mros[i]:
                 ctx.tie_failure("correspondence", "precondition: Class.mro() vs CPython __mro__ (C07)", {"griffe": g_mro, "cpython": mros[i], "class": i}, case)
             # hand-written __init__ is the user's, untouched
             if c["hw"] is not None:
-                if g_mem[0] != "handwritten" or g_mem[1] != ["self", "q0"] or not g_mem[2]:
+                if g_mem[0] != "handwritten" or g_mem[1] != ["self", f"q{i}"] or not g_mem[2]:
                     ctx.property_failure(case, {"class": i, "hand-written __init__ not kept": g_mem})
                 if cv is not None and cv[i][0][0] != "handwritten":
                     ctx.tie_failure("oracle", "CPython replaced a hand-written __init__?", {"class": i, "cpython": cv[i][0]}, case)
             elif c["dec"] is None and g_mem[0] != "absent":
                 ctx.property_failure(case, {"class": i, "non-dataclass class got an __init__": g_mem})
             gaps = None
+            m_gp = m_pyp = None
             if use_model:
-                m_g, m_py, m_glabel, m_pylabel, m_gaps = per[i]
+                m_g, m_py, m_glabel, m_pylabel, m_gaps, m_gp, m_pyp, m_anygap = per[i]
+                m_gp = dec_presented(m_gp)
                 if m_g != norm_member(g_mem) and i not in f10:
                     ctx.tie_failure("correspondence", "g_init_member(model) vs members['__init__'] after griffe.load", {"class": i, "model": m_g, "impl": g_mem}, case)
                 if bool(m_glabel) != g_label and i not in f10:
                     ctx.tie_failure("correspondence", "g_label(model) vs 'dataclass' in labels", {"class": i, "model": m_glabel, "impl": g_label}, case)
+                if m_gp != g_pres and i not in tainted:
+                    ctx.tie_failure("correspondence", "g_presented(model) vs Class.parameters / all_members['__init__'] owner", {"class": i, "model": m_gp, "impl": g_pres}, case)
+                # the extension as a state machine (walk order, cache, InitVar pruning, one event per package)
+                s_mem, s_lab = sr[i]
+                if (s_mem != norm_member(g_mem) or bool(s_lab) != g_label) and i not in f10:
+                    ctx.tie_failure("correspondence", "session machine (model) vs members['__init__'] / label after the loads",
+                                    {"class": i, "model": [s_mem, s_lab], "impl": [g_mem, g_label], "events": events}, case)
                 if cv is not None:
+                    m_pyp = dec_presented(m_pyp)
                     if m_py != norm_member(cv[i][0]):
                         ctx.tie_failure("oracle", "py_init_member(model) vs cls.__dict__['__init__'] / inspect.signature", {"class": i, "model": m_py, "cpython": cv[i][0]}, case)
                     if bool(m_pylabel) != cv[i][1]:
                         ctx.tie_failure("oracle", "py_is_dataclass(model) vs dataclasses.is_dataclass", {"class": i, "model": m_pylabel, "cpython": cv[i][1]}, case)
+                    if m_pyp != cv[i][2]:
+                        ctx.tie_failure("oracle", "py_presented(model) vs inspect.signature(cls) / first __init__ along __mro__", {"class": i, "model": m_pyp, "cpython": cv[i][2]}, case)
                 gaps = [bool(x) for x in m_gaps]
             elif mirror:
                 gaps = py_gaps(table, mros, i)
             if cv is None:
                 continue
-            c_mem, c_isdc = cv[i]
+            c_mem, c_isdc, c_pres = cv[i]
             # direct evaluation of the property: Griffe vs CPython
             if c["dec"] is not None and c["hw"] is None:
                 ctx.count("direct_init_comparisons")
@@ -686,11 +841,35 @@ def check_tables(ctx, tables, stream, use_model=True, mirror=False, loads=None):
                     if gaps is not None and not any(gaps) and c_mem[0] == "synth":
                         ctx.observe("gap-free equal: params", len(c_mem[1]))
                         ctx.observe("gap-free equal: kw-only params", sum(1 for p in c_mem[1] if p[1] == "KO"))
+            # the constructor presented for a class that inherits it (no __init__ of its own): Class.parameters vs inspect.signature(cls)
+            if c_mem[0] == "absent":
+                ctx.count("direct_presented_comparisons")
+                kind = ("no constructor anywhere" if c_pres[0] is None else
+                        ("inherited from a hand-written __init__" if table[c_pres[0]]["hw"] is not None else "inherited from a synthesised __init__"))
+                if len(mros[i]) > 1 and mros[i][0] != c_pres[0] and c_pres[0] is not None and len(c["bases"]) > 1:
+                    kind += ", provider is not the first base (multiple inheritance)"
+                if g_pres != c_pres:
+                    fid = None
+                    j = c_pres[0]
+                    if i in tainted:
+                        fid = "C18-F10"
+                    elif use_model and m_gp == g_pres and m_pyp == c_pres and j is not None:
+                        # the faithful model reproduces this very difference: it is the provider's own known gap
+                        hit = [FINDINGS[k] for k, g in enumerate(per[j][4]) if g]
+                        fid = hit[0] if hit else None
+                    elif mirror and j is not None:
+                        hit = [FINDINGS[k] for k, g in enumerate(py_gaps(table, mros, j)) if g]
+                        fid = hit[0] if hit else None
+                    ctx.observe("outcome", "presented constructor differs: " + (fid or "UNEXPLAINED"))
+                    ctx.property_failure(case, {"class": i, "Class.parameters (after self)": g_pres, "inspect.signature(cls)": c_pres}, finding=fid)
+                else:
+                    ctx.observe("presented constructor equal", kind)
             if g_label != c_isdc:
                 ctx.observe("outcome", "label differs")
                 ctx.property_failure(case, {"class": i, "griffe label": g_label, "is_dataclass": c_isdc}, finding="C18-F10" if (gaps is not None and i in f10) else None)
             elif c_isdc and c["dec"] is None:
                 ctx.observe("outcome", "inherited label present")
+    return records
 
 
 # ---------------------------------------------------------------- python mirror of the gap predicates (search mode only: no model)
@@ -789,24 +968,57 @@ def replay_witnesses(ctx):
                 ctx.tie_failure("harness", f"witness of {fid} is not inside its own gap predicate", {"model": per}, case_json(table, None))
 
 
+MODIDX = {None: 0, "ma": 1, "mz": 2}
+
+
 def check_histories(ctx, n, use_model=True, mirror=False):
     """Several versions of ONE package (same package and class names, different bodies) loaded one after the other through one
     shared griffe.load_extensions() result — what `griffe check` and any long-lived loader do.  Each version is compared with
-    CPython's execution of its own source."""
+    CPython's execution of its own source, and the whole history with the model's state machine (one event per version; the
+    class objects of different versions are distinct, their canonical paths coincide)."""
     import griffe
-    tables, loads = [], []
+    tables, loads, groups = [], [], []
     for _ in range(n):
         ext = griffe.load_extensions()
         name = f"c18h{next(_counter)}"
         prev = []
         nver = ctx.rng.choice([2, 2, 3])
         first = rand_table(ctx.rng, maxn=3, quiet=True)
+        groups.append(range(len(tables), len(tables) + nver))
         for v in range(nver):
             t = first if v == 0 else (evolve(ctx.rng, first) if ctx.rng.random() < 0.6 else rand_table(ctx.rng, maxn=3, quiet=True))
             split = rand_split(ctx.rng, t) if (len(t) >= 2 and ctx.rng.random() < 0.3) else None
             tables.append(t)
             loads.append({"name": name, "dir": f"hist/{name}/v{v}", "extensions": ext, "split": split, "prev": prev})
-    check_tables(ctx, tables, "history: versions of one package through shared extensions", use_model=use_model, mirror=mirror, loads=loads)
+    recs = check_tables(ctx, tables, "history: versions of one package through shared extensions", use_model=use_model, mirror=mirror, loads=loads)
+    if not use_model:
+        return
+    sessions = []
+    for g in groups:
+        rs = [recs[k] for k in g]
+        if any(r is None for r in rs):
+            continue
+        classes, paths, events, off, pathsets = [], [], [], 0, []
+        for r in rs:
+            where = split_parts(r["split"])[0]
+            classes += enc_table(r["table"], [[off + j for j in m] for m in r["mros"]])[1]
+            mine = [50 * MODIDX[where[i] if where else None] + i for i in range(len(r["table"]))]
+            paths += mine
+            pathsets.append(frozenset(mine))
+            events.append([off + i for i in r["events"][0]])
+            off += len(r["table"])
+        ctx.observe("history session: a later version re-uses canonical paths of an earlier one", any(pathsets[k] & pathsets[j] for k in range(len(rs)) for j in range(k)))
+        sessions.append((rs, enc_session(classes, paths, events)))
+    for (rs, _), out in zip(sessions, ctx.model([e for _, e in sessions])):
+        off = 0
+        for v, r in enumerate(rs):
+            for i in range(len(r["table"])):
+                g_mem, g_label = r["gv"][i][0], r["gv"][i][1]
+                s_mem, s_lab = out[off + i]
+                if (s_mem != norm_member(g_mem) or bool(s_lab) != g_label) and i not in r["f10"]:
+                    ctx.tie_failure("correspondence", "session machine (model) over the whole history vs members['__init__'] / label of this version",
+                                    {"version": v, "class": i, "model": [s_mem, s_lab], "impl": [g_mem, g_label]}, r["case"])
+            off += len(r["table"])
 
 
 def evolve(rng, table):
@@ -835,7 +1047,9 @@ def explore(ctx):
         ctx.exhaustive = True
     check_tables(ctx, sd, "systematic decorator pairs")
     check_tables(ctx, sf, "systematic field forms")
-    check_tables(ctx, [rand_diamond(ctx.rng) for _ in range(ctx.budget(250, 1500))], "random diamonds")
+    check_tables(ctx, [rand_diamond(ctx.rng) for _ in range(ctx.budget(300, 1500))], "random diamonds")
+    check_tables(ctx, [rand_table(ctx.rng, maxn=4, quiet=True, initvar=0.3) for _ in range(ctx.budget(250, 1200))],
+                 "cross-package: one loader, packages loaded in dependency order", layout="xpkg")
     n = ctx.budget(1800, 8000)
     maxn = 4 if ctx.quick else 5
     batch = []
